@@ -164,6 +164,10 @@ func genCert(r *mrand.Rand) ([]byte, certCase, error) {
 			pkix.Extension{Id: oid(1, 3, 6, 1, 4, 1, 41482, 3, 9), Value: []byte{byte(r.Intn(5))}, Critical: r.Intn(8) == 0})
 		ser := derInt(gen.Bytes(r, 3+r.Intn(2)))
 		t.ExtraExtensions = append(t.ExtraExtensions, pkix.Extension{Id: oid(1, 3, 6, 1, 4, 1, 41482, 3, 7), Value: ser})
+		if r.Intn(4) == 0 {
+			// vendor / private extensions whose value is empty (a flag by presence)
+			t.ExtraExtensions = append(t.ExtraExtensions, pkix.Extension{Id: oid(1, 3, 6, 1, 4, 1, 41482, 99, 7), Value: []byte{}}, pkix.Extension{Id: oid(1, 2, 840, 113556, 1, 99), Value: nil, Critical: false})
+		}
 		kinds = append(kinds, "yubico")
 	}
 	if r.Intn(24) == 0 {
